@@ -56,7 +56,7 @@ fn case(code: i64, p: &[i128], msg: &[i128]) -> (Vec<Vec<i128>>, Vec<Vec<i128>>)
     let n = h.n;
     let (dn, b2, kk) = (Degree(n as u32), Base2K(h.b as u32), TorusPrecision((h.size * h.b) as u32));
     with_be!(h.be, BE, {
-        let module: Module<BE> = Module::<BE>::new(n as u64);
+        let module: Module<BE> = Module::<BE>::new(if code == 19004 { 8 } else { n as u64 });
         let mut sc: ScratchOwned<BE> = ScratchOwned::alloc(1 << 22);
         let clen = h.rout * h.size * n;
         let cell_words = (h.rout + 1) * h.size * n;
@@ -92,6 +92,35 @@ fn case(code: i64, p: &[i128], msg: &[i128]) -> (Vec<Vec<i128>>, Vec<Vec<i128>>)
             let e = replay_error(&module, n, h.b, h.size, noise, &mut Source::new(sxe));
             return (vec![to128(&s), raw_u64(&stored, clen), to128(&e), vec![1; 6]], vec![body, all_cols(ct.data()), flags]);
         }
+        if code == 19004 {
+            // decompress_lwe: the compressed object (seed + body) is built from the standard encryption under Source::new(seed)
+            // (no compressed LWE encryption exists); decompression must give that ciphertext back.  n = LWE dimension.
+            let nl = n;
+            let mut sk = LWESecret::alloc(Degree(nl as u32));
+            fill_lwe_secret(&mut sk, h.skind, h.sparam, &mut Source::new(sxo));
+            let psize = h.x10 as usize;
+            let mut pt = LWEPlaintext::alloc(b2, TorusPrecision((psize * h.b) as u32));
+            set_col(pt.data_mut(), 0, msg);
+            let mut ct = LWE::alloc(Degree(nl as u32), b2, kk);
+            module.lwe_encrypt_sk(&mut ct, &pt, &sk, &noise, &mut Source::new(sxe), &mut Source::new(sxa), sc.borrow());
+            let w = col_words(ct.data(), 0);
+            let mut bytes: Vec<u8> = vec![];
+            bytes.extend(((h.size * h.b) as u32).to_le_bytes()); bytes.extend((h.b as u32).to_le_bytes()); bytes.extend(sxa);
+            for x in [1u64, 1, h.size as u64, h.size as u64, (8 * h.size) as u64] { bytes.extend(x.to_le_bytes()); }
+            for j in 0..h.size { bytes.extend((w[j * (nl + 1)] as i64).to_le_bytes()); }
+            let mut cc = LWECompressed::alloc(b2, kk);
+            cc.read_from(&mut &bytes[..]).unwrap();
+            let round = ser(&cc) == bytes;
+            let dec = std::panic::catch_unwind(std::panic::AssertUnwindSafe(|| {
+                let mut o = LWE::alloc(Degree(nl as u32), b2, kk);
+                module.decompress_lwe(&mut o, &cc);
+                col_words(o.data(), 0)
+            }));
+            let s: Vec<i128> = sk.raw().iter().map(|x| *x as i128).collect();
+            let e = replay_error(&module, 1, h.b, h.size, noise, &mut Source::new(sxe));
+            let (words, flag) = match dec { Ok(d) => { let f = (d == w) as i128; (d, f) } Err(_) => (vec![], 0) };
+            return (vec![s, raw_u64(&sxa, h.size * (nl + 1)), to128(&e), vec![1, 1]], vec![words, vec![flag, round as i128]]);
+        }
         if code == 19003 {
             // GGSW compressed: rank = rout
             let rank = h.rout;
@@ -101,7 +130,30 @@ fn case(code: i64, p: &[i128], msg: &[i128]) -> (Vec<Vec<i128>>, Vec<Vec<i128>>)
             let mut m = ScalarZnx::alloc(n, 1);
             for (d, s) in m.at_mut(0, 0).iter_mut().zip(msg) { *d = *s as i64; }
             let mut gc = GGSWCompressed::alloc(dn, b2, kk, Rank(rank as u32), Dnum(h.dnum as u32), Dsize(h.dsize as u32));
-            module.ggsw_compressed_encrypt_sk(&mut gc, &m, &skp, sxa, &noise, &mut Source::new(sxe), sc.borrow());
+            let cells = h.dnum * (rank + 1);
+            // root of the per-cell seeds and number of cells encrypted before this GGSW (shared error stream)
+            let (root, skip): ([u8; 32], usize);
+            if h.kind == 1 {
+                // entry h.idx of a compressed CGGI blind-rotation key over an LWE secret of dimension h.rin: GGSW i encrypts the
+                // constant s_lwe[i] with the i-th seed drawn from seed_xa as its own root
+                use poulpy_bin_fhe::blind_rotation::{BlindRotationKeyCompressed, BlindRotationKeyCompressedEncryptSk, BlindRotationKeyLayout, CGGI};
+                let nl = h.rin;
+                let lay = BlindRotationKeyLayout { n_glwe: dn, n_lwe: Degree(nl as u32), base2k: b2, k: kk, dnum: Dnum(h.dnum as u32), rank: Rank(rank as u32) };
+                let mut skl = LWESecret::alloc(Degree(nl as u32));
+                fill_lwe_secret(&mut skl, 2, 8, &mut Source::new(sxi));
+                let mut key = BlindRotationKeyCompressed::<Vec<u8>, CGGI>::alloc(&lay);
+                module.blind_rotation_key_compressed_encrypt_sk(&mut key, &skp, &skl, sxa, &noise, &mut Source::new(sxe), sc.borrow());
+                let all = ser(&key);
+                let entry = 20 + 32 * cells + 48 + n * h.size * cells * 8;
+                gc.read_from(&mut &all[16 + h.idx * entry..16 + (h.idx + 1) * entry]).unwrap();
+                for x in m.at_mut(0, 0).iter_mut() { *x = 0; }
+                m.at_mut(0, 0)[0] = skl.raw()[h.idx];
+                root = words_seed(&raw_u64(&sxa, 4 * (h.idx + 1))[4 * h.idx..]);
+                skip = h.idx * cells;
+            } else {
+                module.ggsw_compressed_encrypt_sk(&mut gc, &m, &skp, sxa, &noise, &mut Source::new(sxe), sc.borrow());
+                root = sxa; skip = 0;
+            }
             let mut g = GGSW::alloc(dn, b2, kk, Rank(rank as u32), Dnum(h.dnum as u32), Dsize(h.dsize as u32));
             module.decompress_ggsw(&mut g, &gc);
             let bytes = ser(&gc);
@@ -109,13 +161,13 @@ fn case(code: i64, p: &[i128], msg: &[i128]) -> (Vec<Vec<i128>>, Vec<Vec<i128>>)
             gc2.read_from(&mut &bytes[..]).unwrap();
             let mut g2 = GGSW::alloc(dn, b2, kk, Rank(rank as u32), Dnum(h.dnum as u32), Dsize(h.dsize as u32));
             module.decompress_ggsw(&mut g2, &gc2);
-            let cells = h.dnum * (rank + 1);
-            let parent = raw_u64(&sxa, 4 * cells);
+            let parent = raw_u64(&root, 4 * cells);
             let (mut seeds_w, mut children, mut cellw, mut flags, mut exp) = (vec![], vec![], vec![], vec![], vec![]);
             let mut xe = Source::new(sxe);
             let mut errs: Vec<i128> = vec![];
             let mut bodies_ok = true;
             let mut xe_std = Source::new(sxe);
+            for _ in 0..skip { let _ = replay_error(&module, n, h.b, h.size, noise, &mut xe); let _ = replay_error(&module, n, h.b, h.size, noise, &mut xe_std); }
             for row in 0..h.dnum { for col in 0..=rank {
                 let cb = ser(&gc.at(row, col));
                 let stored: [u8; 32] = cb[8..40].try_into().unwrap();
@@ -141,7 +193,8 @@ fn case(code: i64, p: &[i128], msg: &[i128]) -> (Vec<Vec<i128>>, Vec<Vec<i128>>)
             } }
             flags.extend([(seeds_w == parent) as i128, bodies_ok as i128, (ser(&g2) == ser(&g)) as i128, (ser(&gc2) == bytes) as i128]);
             exp.extend([1; 4]);
-            return (vec![to128(&s), parent, children, errs, exp], vec![seeds_w, cellw, flags]);
+            let mw: Vec<i128> = m.at(0, 0).iter().map(|x| *x as i128).collect();
+            return (vec![mw, to128(&s), parent, children, errs, exp], vec![seeds_w, cellw, flags]);
         }
         // ---------------- 19002: GGLWE-shaped objects ----------------
         let (rin, rout) = (h.rin, h.rout);
@@ -152,6 +205,7 @@ fn case(code: i64, p: &[i128], msg: &[i128]) -> (Vec<Vec<i128>>, Vec<Vec<i128>>)
         // per kind: (plaintext polynomials, clear s_out, serialised compressed object, offset of the GGLWECompressed inside it,
         //            decompressed cells, decompressed-after-serde cells, serde bytes equal)
         let (ms, s_out, bytes, skip, cells_a, cells_b, ser_same): (Vec<Vec<i64>>, Vec<i64>, Vec<u8>, usize, Vec<i128>, Vec<i128>, bool);
+        let mut wrapper_flag: i128 = 2;
         let dump = |g: &GGLWE<&[u8]>| -> Vec<i128> {
             let mut w = Vec::new();
             for row in 0..h.dnum { for col in 0..rin { w.extend(all_cols(g.at(row, col).data())); } }
@@ -187,6 +241,33 @@ fn case(code: i64, p: &[i128], msg: &[i128]) -> (Vec<Vec<i128>>, Vec<Vec<i128>>)
                 ser_same = ser(&kc2) == bytes;
                 ms = polys(&s_in); s_out = s_out_lib.clone();
                 cells_a = dump(&g.to_ref()); cells_b = dump(&g2.to_ref());
+                // the LWE-related compressed layouts are wrappers of this one (no encryption routine exists for them): where the
+                // shape admits them they must accept the same bytes and decompress to the same cells
+                if h.dsize == 1 {
+                    let mut ok = true; let mut any = false;
+                    if rin == 1 && rout == 1 {
+                        let mut w = LWESwitchingKeyCompressed::alloc(dn, b2, kk, Dnum(h.dnum as u32));
+                        w.read_from(&mut &bytes[..]).unwrap();
+                        let mut o = LWESwitchingKey::alloc(dn, b2, kk, Dnum(h.dnum as u32));
+                        module.decompress_gglwe(&mut o, &w);
+                        ok &= dump(&o.to_ref()) == cells_a && ser(&w) == bytes; any = true;
+                    }
+                    if rout == 1 {
+                        let mut w = GLWEToLWESwitchingKeyCompressed::alloc(dn, b2, kk, Rank(rin as u32), Dnum(h.dnum as u32));
+                        w.read_from(&mut &bytes[..]).unwrap();
+                        let mut o = GLWEToLWEKey::alloc(dn, b2, kk, Rank(rin as u32), Dnum(h.dnum as u32));
+                        module.decompress_gglwe(&mut o, &w);
+                        ok &= dump(&o.to_ref()) == cells_a && ser(&w) == bytes; any = true;
+                    }
+                    if rin == 1 {
+                        let mut w = LWEToGLWEKeyCompressed::alloc(dn, b2, kk, Rank(rout as u32), Dnum(h.dnum as u32));
+                        w.read_from(&mut &bytes[..]).unwrap();
+                        let mut o = LWEToGLWEKey::alloc(dn, b2, kk, Rank(rout as u32), Dnum(h.dnum as u32));
+                        module.decompress_gglwe(&mut o, &w);
+                        ok &= dump(&o.to_ref()) == cells_a && ser(&w) == bytes; any = true;
+                    }
+                    if any { wrapper_flag = ok as i128; }
+                }
             }
             2 => {
                 let gal = module.galois_element(h.x10 as i64);
@@ -286,10 +367,10 @@ fn case(code: i64, p: &[i128], msg: &[i128]) -> (Vec<Vec<i128>>, Vec<Vec<i128>>)
         let mut bodies_ok = bodies.len() == cells * h.size * n;
         for slot in 0..cells { if bodies_ok { bodies_ok &= bodies[slot * h.size * n..(slot + 1) * h.size * n] == cells_a[slot * cell_words..slot * cell_words + h.size * n]; } }
         let mut flags = std_flag.clone();
-        flags.extend([(seeds_w == drawn) as i128, bodies_ok as i128, (cells_a == cells_b) as i128, ser_same as i128]);
+        flags.extend([(seeds_w == drawn) as i128, bodies_ok as i128, (cells_a == cells_b) as i128, ser_same as i128, wrapper_flag]);
         // predicted flags (from the shape alone): every comparison succeeds, 2 where the public API cannot express it
         let mut exp: Vec<i128> = vec![if std_ok { 1 } else { 2 }; cells];
-        exp.extend([1, 1, 1, 1]);
+        exp.extend([1, 1, 1, 1, if wrapper_flag == 2 { 2 } else { 1 }]);
         let msw: Vec<i128> = ms.iter().flat_map(|m| to128(m)).collect();
         (vec![msw, to128(&s_out), parent, children, errs, dec_children, exp], vec![seeds_w, cells_a, flags])
     })
@@ -317,14 +398,15 @@ pub fn generate(tier: &str, seed: u64) -> Vec<Rec> {
     let mut out = Vec::new();
     let reps = if tier == "thorough" { 1500 } else { 260 };
     for it in 0..reps {
-        let (code, kind) = match it % 13 { 0 | 1 => (19001, 0), 2 | 3 => (19003, 0), 4 | 5 => (19002, 0), 6 | 7 => (19002, 1), 8 | 9 => (19002, 2),
+        let (code, kind) = match it % 13 { 0 => (19001, 0), 1 => (19004, 0), 2 => (19003, 0), 3 => (19003, 1), 4 | 5 => (19002, 0), 6 | 7 => (19002, 1), 8 | 9 => (19002, 2),
                                            10 | 11 => (19002, 3), _ => (19002, 4) };
         let be = 1 + (it / 13) as i128 % 4;
-        let n = 1usize << rng.range(3, 5);
+        let n = if code == 19004 { rng.pick(&[1usize, 1, 2, 5, 8]) } else { 1usize << rng.range(3, 5) };
         let rout = rng.range(1, 3) as usize;
         let mut rin = rng.range(1, 3) as usize;
-        if kind == 2 || kind == 4 { rin = rout; }
-        if kind == 3 { rin = rout * (rout + 1) / 2; }
+        if code == 19002 && (kind == 2 || kind == 4) { rin = rout; }
+        if code == 19003 && kind == 1 { rin = rng.range(1, 6) as usize; }
+        if code == 19002 && kind == 3 { rin = rout * (rout + 1) / 2; }
         let skind = rng.below(5) as i128;   // not ZERO: products would be trivial
         let (sparam, hw) = match skind {
             0 | 2 => { let p = rng.range(1, 16) as usize; (p, n) }
@@ -335,24 +417,25 @@ pub fn generate(tier: &str, seed: u64) -> Vec<Rec> {
         let bmin = if kind >= 3 { log2_ceil(n) + 2 } else { 1 };
         let bmax = if be <= 2 { (51 - log2_ceil(hw)).min(50) } else { 52 };
         let b = rng.range(bmin as i64, bmax as i64) as usize;
-        let dsize = rng.range(1, 3) as usize;
+        let dsize = if code == 19003 && kind == 1 { 1 } else { rng.range(1, 3) as usize };
         let dnum = rng.range(1, 3) as usize;
         let size = (dnum * dsize).max(dsize + 1) + rng.below(2) as usize;   // the layouts require size > dsize
         let nk = match rng.below(3) { 0 => size * b, _ => rng.range(1, (size * b) as i64) as usize };
-        let x10 = if code == 19001 { rng.range(1, size as i64 + 1) as i128 } else { rng.range(-5, 5) as i128 };
-        let idx = if kind == 4 { rng.below(rout as u64) as i128 } else { 0 };
+        let x10 = if code == 19001 || code == 19004 { rng.range(1, size as i64 + 1) as i128 } else { rng.range(-5, 5) as i128 };
+        let idx = if code == 19002 && kind == 4 { rng.below(rout as u64) as i128 } else if code == 19003 && kind == 1 { rng.below(rin as u64) as i128 } else { 0 };
         let (sigma, bound) = match rng.below(3) { 0 => (1.0, 6.0), _ => (3.2, 19.2) };
         let mut ps: Vec<i128> = vec![be, n as i128, b as i128, size as i128, rin as i128, rout as i128, dnum as i128, dsize as i128, nk as i128,
             kind, x10, (sigma * 1000.0) as i128, (bound * 1000.0) as i128, skind, sparam as i128, idx];
         for _ in 0..4 { ps.extend(seed_words(&rng.bytes32())); }
         let msg: Vec<i128> = match code {
             19001 => { let cl = rng.below(5); message(&mut rng, n, x10 as usize, b, cl) }
+            19004 => { let cl = rng.below(5); message(&mut rng, 1, x10 as usize, b, cl) }
             19003 => (0..n).map(|_| rng.range(-1, 1) as i128).collect(),
             _ => (0..rin * n).map(|_| rng.range(-2, 2) as i128).collect(),
         };
         let derived = std::panic::catch_unwind(|| case(code, &ps, &msg).0).unwrap_or_default();
-        let mut vs = if code == 19002 { vec![] } else { vec![msg.clone()] };
-        if code == 19002 && derived.is_empty() { vs.push(msg.clone()); }
+        let mut vs = if code == 19002 || code == 19003 { vec![] } else { vec![msg.clone()] };
+        if (code == 19002 || code == 19003) && derived.is_empty() { vs.push(msg.clone()); }
         vs.extend(derived);
         out.push(Rec::new(code, ps, vs));
     }
